@@ -123,6 +123,7 @@ type istate struct {
 	dead    bool                    // a failing type assertion was executed: the path panics
 	rbase   map[*ssa.BasicBlock]int // visits of a range loop's header before its current activation
 	decided map[string]bool         // outcome already taken on this path for a symbolic condition (by its term)
+	escaped map[ssa.Value]bool      // locals whose address was handed to a call
 	count   map[*ssa.BasicBlock]int
 }
 
@@ -147,6 +148,10 @@ func (s *istate) clone() *istate {
 	n.decided = map[string]bool{}
 	for k, v := range s.decided {
 		n.decided[k] = v
+	}
+	n.escaped = map[ssa.Value]bool{}
+	for k, v := range s.escaped {
+		n.escaped[k] = v
 	}
 	return n
 }
@@ -304,6 +309,7 @@ func (in *interp) instr(st *istate, ins ssa.Instruction) {
 		a := symv("&"+name, x.Type())
 		a.nonnil = true
 		st.env[x] = a
+		delete(st.mem, x) // a local is zeroed each time its declaration executes
 	case *ssa.Store:
 		if _, ok := x.Addr.(*ssa.Alloc); ok {
 			st.mem[x.Addr] = in.get(st, x.Val)
@@ -341,6 +347,22 @@ func (in *interp) instr(st *istate, ins ssa.Instruction) {
 			if m, ok := st.mem[x.X]; ok {
 				st.env[x] = m
 				return
+			}
+			if _, isAlloc := x.X.(*ssa.Alloc); isAlloc && !st.escaped[x.X] {
+				// never stored: the zero value of a basic type
+				if bt, ok := x.Type().Underlying().(*types.Basic); ok {
+					switch {
+					case bt.Info()&types.IsBoolean != 0:
+						st.env[x] = constv(constant.MakeBool(false), x.Type())
+						return
+					case bt.Info()&types.IsString != 0:
+						st.env[x] = constv(constant.MakeString(""), x.Type())
+						return
+					case bt.Info()&types.IsInteger != 0:
+						st.env[x] = constv(constant.MakeInt64(0), x.Type())
+						return
+					}
+				}
 			}
 			if v.k == aNil {
 				st.env[x] = symv("deref(nil)!", x.Type())
@@ -406,6 +428,20 @@ func (in *interp) instr(st *istate, ins ssa.Instruction) {
 		// loads of FieldAddr look in mem[x]
 	case *ssa.MakeInterface:
 		v := in.get(st, x.X)
+		if al, ok := x.X.(*ssa.Alloc); ok {
+			// boxing the address of a local: remember what the local holds now
+			if m, ok := st.mem[al]; ok && v.k == aSym {
+				c := *v
+				c.pt = m
+				v = &c
+			} else if !ok && v.k == aSym && !st.escaped[al] {
+				if bt, isB := deref(al.Type()).Underlying().(*types.Basic); isB && bt.Info()&types.IsBoolean != 0 {
+					c := *v
+					c.pt = constv(constant.MakeBool(false), deref(al.Type()))
+					v = &c
+				}
+			}
+		}
 		st.env[x] = &aval{k: aIface, dyn: v, t: x.X.Type()}
 	case *ssa.ChangeInterface:
 		st.env[x] = in.get(st, x.X)
@@ -582,6 +618,19 @@ func (in *interp) call(st *istate, c *ssa.Call) {
 	var args []*aval
 	for _, a := range cc.Args {
 		args = append(args, in.get(st, a))
+	}
+	// a local whose address is handed to the callee may be written by it
+	for _, a := range cc.Args {
+		if mi, ok := a.(*ssa.MakeInterface); ok {
+			a = mi.X
+		}
+		if al, ok := a.(*ssa.Alloc); ok {
+			if st.escaped == nil {
+				st.escaped = map[ssa.Value]bool{}
+			}
+			st.escaped[al] = true
+			delete(st.mem, al)
+		}
 	}
 	name := "?"
 	if b, ok := cc.Value.(*ssa.Builtin); ok {
